@@ -53,6 +53,7 @@ pub enum K {
     Deref,
     LinkChain,
     Restamp,
+    WRestamp,
 }
 
 pub struct Role {
@@ -1345,6 +1346,27 @@ impl T {
                 cell.store(r, SeqCst, self.gref(g));
                 self.rec_cell(key, CellCall::Store(v), CellRet::Unit, inv);
                 self.lg(format!("restamp {:?}: s{} = load -> #{:?} tag {}; store(counted)", cs, slot, sid, v.1));
+                true
+            }
+            K::WRestamp => {
+                // a Weak that carries the stamp of a strong link goes into a weak cell
+                let g = self.some_guard();
+                let ri = self.rng.below(self.sh.roots.len() as u64) as usize;
+                let sn = self.sh.roots[ri].load(SeqCst, self.gref(g));
+                let sid = if sn.is_null() { None } else { mon::id_of_addr(sn.verif_addr()) };
+                if sid.is_none() {
+                    return false;
+                }
+                let w = sn.downgrade().counted();
+                self.wk_add(sid);
+                let cs = self.pick_wcell();
+                let (cell, key) = self.wcell(cs);
+                let v = Self::val(sid, w.tag());
+                self.wk_sub(sid);
+                self.lg(format!("{:?}.store(Root({}).load().downgrade().counted() #{:?} tag {} stamp {}, g{})", cs, ri, sid, v.1, w.verif_high_tag(), g));
+                let inv = mon::stamp();
+                cell.store(w, SeqCst, self.gref(g));
+                self.rec_wcell(key, CellCall::Store(v), CellRet::Unit, inv);
                 true
             }
             K::LinkChain => {
